@@ -172,6 +172,7 @@ class Builder:
             self.op(op="step", k=k)
         else:
             self.op(op="quiesce")
+        self.op(op="resume")         # a close waiting for a stalled buffer to drain may complete now
         self.op(op="resolve_all", how=self.rng.choice(["ok", "refuse"]))
         self.op(op="quiesce")
         self.op(op="advance", by=10000)
